@@ -284,7 +284,11 @@ def build():
                                     init=numpy.array([[-1.0, 0.0, 0.5], [1.0, 0.5, -0.5]]))],
              lambda r: {"X": reg_data(r)["X"]}, lambda r: {"X": reg_data(r, n=25, d=3)["X"] * 2 + 1},
              methods=["predict", "transform"], rowwise=["predict", "transform"], det_rs=True,
-             alts={"norm": [lambda: "L1", lambda: "L2"], "init": [lambda: "random", lambda: "k-means++"],
+             alts={"norm": [lambda: "L1", lambda: "L2"],
+                   "init": [# initial centres as a nested list (a valid array-like), one row per cluster
+                            lambda est: ([[(-1.0) ** i * (0.5 + 0.25 * i), 0.1 * i, -0.2 * i] for i in range(est.n_clusters)]
+                                         if est is not None and est.norm == "L2" and isinstance(est.init, str) else SKIP),
+                            lambda: "random", lambda: "k-means++"],
                    "algorithm": [lambda: "lloyd"], "n_init": [lambda: 1, lambda: 3]}))
     add(Spec("ConstraintKMeans",
              [lambda: mm.ConstraintKMeans(n_clusters=3, n_init=2, random_state=0, strategy="distance", max_iter=6),
